@@ -75,7 +75,7 @@ func TestC08(t *testing.T) {
 			}
 		})
 		// 2. shared byte-level generators x fixed programs (offsets after every value x next byte)
-		e.feed(feedOpts{counts: 1, shortlexQ: 3, shortlexT: 5, sweepQ: 25, sweepT: 3000, sweepMaxLen: 64, nestQ: 20, nestT: 300, indentQ: 6, indentT: 100, numShapes: 2, strRuns: true, tokenSweepQ: 20, templateSweep: true,
+		e.feed(feedOpts{counts: 1, streams: true, shortlexQ: 3, shortlexT: 5, sweepQ: 25, sweepT: 3000, sweepMaxLen: 64, nestQ: 20, nestT: 300, indentQ: 6, indentT: 100, numShapes: 2, strRuns: true, tokenSweepQ: 20, templateSweep: true,
 			nestDepths: []int{1, 2, 3, 5, 64, 9999, 10000}, noDepthSites: true, nextByte: true, alignment: true}, evalFixed)
 	})
 }
